@@ -56,6 +56,9 @@ struct Plan {
     /// read with Connection::receive_raw: every frame body comes back verbatim, in order
     #[serde(default)]
     raw: bool,
+    /// read-half runs: the I/O timeout handed to receive_message_from_read_half (0 = one hour)
+    #[serde(default)]
+    rh_timeout_ms: u64,
     #[serde(default)]
     salt: u64,
 }
@@ -108,7 +111,22 @@ impl Scenario for C06 {
                 gap_ms: *r.pick(&[0u32, 0, 0, 1, 30]),
             });
         }
-        let p = Plan { header_mode, client: end(r), server: end(r), cap: *r.pick(&[0u32, 0, 4096]), items, interleave: r.chance(1, 2), read_half: !header_mode && r.chance(1, 3), raw: r.chance(1, 10), salt: r.next_u64() };
+        let mut p = Plan { header_mode, client: end(r), server: end(r), cap: *r.pick(&[0u32, 0, 4096]), items, interleave: r.chance(1, 2), read_half: !header_mode && r.chance(1, 3), raw: r.chance(1, 10), rh_timeout_ms: 0, salt: r.next_u64() };
+        if p.read_half && r.chance(1, 2) {
+            // a short I/O timeout, idle gaps beyond it, and a network whose mid-frame delays stay far below it
+            p.rh_timeout_ms = *r.pick(&[300u64, 2_000]);
+            p.client.spurious_16 = 0;
+            p.client.max_delay_ms = 0;
+            p.server.stall_16 = 0;
+            p.server.max_delay_ms = 0;
+            p.server.latency_ms = p.server.latency_ms.min(5);
+            p.client.latency_ms = p.client.latency_ms.min(5);
+            for it in p.items.iter_mut() {
+                if r.chance(1, 3) {
+                    it.gap_ms = (p.rh_timeout_ms * *r.pick(&[1u64, 2, 5])) as u32 + r.below(50) as u32;
+                }
+            }
+        }
         serde_json::to_value(p).unwrap()
     }
 
@@ -133,7 +151,7 @@ impl Scenario for C06 {
             components_stubbed: &["TCP (SimNet)", "EPMD (stub)", "remote node (conforming sender model with an independent encoder)"],
             assumptions: &["junk frames never touch atom-cache slots the sender model uses (reserved segment 7) and use sequence ids disjoint from valid fragments", "fragmented messages use header entries in reserved segment 6 so that the known fragment defect cannot cascade into later messages"],
             fault_prefixes: &["fault.", "net."],
-            expected_probes: &["probe.c06.ok_passthrough", "probe.c06.ok_header", "probe.c06.tick_skipped", "probe.c06.junk_rejected", "probe.c06.message_after_junk_intact", "probe.c06.fragmented_sent", "probe.c06.read_half_api", "probe.c06.raw_api"],
+            expected_probes: &["probe.c06.ok_passthrough", "probe.c06.ok_header", "probe.c06.tick_skipped", "probe.c06.junk_rejected", "probe.c06.message_after_junk_intact", "probe.c06.fragmented_sent", "probe.c06.read_half_api", "probe.c06.raw_api", "probe.c06.junk_with_intact_header", "probe.c06.read_half_short_timeout"],
         }
     }
 }
@@ -180,8 +198,30 @@ pub fn build_script(w: &Arc<World>, header_mode: bool, interleave: bool, items: 
                 frames.push((wire::frame4(&[]), it.gap_ms));
                 w.stat("probe.c06.tick_skipped");
             }
+            "junk" if header_mode && it.junk == "hdr_ok_term_bad" => {
+                // the header is intact (and a conforming sender counts its new entries as delivered);
+                // only the terms behind it are cut short
+                let (control, has_payload) = sender::gen_control(&mut r, it.ctl_kind as usize, false);
+                let payload = if has_payload { Some(Val::tuple(vec![Val::int(k as i128), wire::gen_val(&mut r, it.size)])) } else { None };
+                let mut atoms = Vec::new();
+                control.atoms(&mut atoms);
+                if let Some(p) = &payload {
+                    p.atoms(&mut atoms);
+                }
+                let mut st = Vec::new();
+                let refs = cache.choose_refs(&mut r, &atoms, &mut st);
+                let hdr_len = wire::write_header_body(&refs).len();
+                let full = wire::with_dist_header(&control, payload.as_ref(), &refs);
+                // cut inside the control tuple: a prefix of a tuple is never a complete term
+                let control_len = wire::with_dist_header(&control, None, &refs).len() - 2 - hdr_len;
+                let keep = 2 + hdr_len + (control_len / 2).max(1);
+                frames.push((wire::frame4(&full[..keep]), it.gap_ms));
+                expect.push(Expect::Err(it.junk.clone()));
+                w.stat("probe.c06.junk_with_intact_header");
+            }
             "junk" => {
-                frames.push((wire::frame4(&sender::junk_body(&mut r, &it.junk)), it.gap_ms));
+                let kind = if it.junk == "hdr_ok_term_bad" { "pt_garbage" } else { it.junk.as_str() };
+                frames.push((wire::frame4(&sender::junk_body(&mut r, kind)), it.gap_ms));
                 expect.push(Expect::Err(it.junk.clone()));
             }
             _ => {
@@ -408,7 +448,11 @@ async fn scenario(w: &Arc<World>, p: &Plan) {
         };
         let mut out: Vec<Got> = Vec::new();
         for _ in 0..n + 1 {
-            let r = Connection::receive_message_from_read_half(&mut half, Duration::from_secs(3600)).await;
+            let t = if p.rh_timeout_ms > 0 { Duration::from_millis(p.rh_timeout_ms) } else { Duration::from_secs(3600) };
+            if p.rh_timeout_ms > 0 {
+                w.stat("probe.c06.read_half_short_timeout");
+            }
+            let r = Connection::receive_message_from_read_half(&mut half, t).await;
             out.push(match r {
                 Ok((c, pl)) => Ok((to_val(&c.to_term()), pl.as_ref().map(to_val))),
                 Err(e) => Err(e.to_string()),
